@@ -344,6 +344,13 @@ func cmdXform(args []string) int {
 			id++
 		}
 	}
+	// ... and between 8 and 16 MiB (indexes at and above 2^23, the second regime boundary of the inverse)
+	for bi, j := range []uint{1, 4} {
+		if *thorough || bi == 0 {
+			cases = append(cases, xformCase{ID: id, T: []string{"BWT", "BWTS"}[bi], Shape: "text", Size: 9<<20 + 4096*int(j), Seed: *seed*1009 + int64(id), Hint: -1, Entropy: "NONE", Jobs: j})
+			id++
+		}
+	}
 	// data-type hints left by earlier stages: every transform behind each stage that classifies the block, on the data classes
 	// these stages tell apart (including almost-valid UTF-8)
 	hintShapes := []string{"text", "utf8", "utf8cjk", "utf8dmg", "dna", "x86", "wav", "mixed", "html", "numeric", "base64", "exe"}
